@@ -5,6 +5,13 @@ import traceback
 from . import core, build, histories, oracles, qsim
 
 
+def hist_class(profile_kw):
+    if profile_kw.get("conc_injectors"):
+        from . import conchist
+        return conchist.ConcHistory
+    return histories.History
+
+
 def worker(prop, bdir, variant, lo, hi, profile_kw, oracle_names, salt, plan_fn=None):
     res = core.Result()
     b = build.Build(variant, bdir)
@@ -17,7 +24,7 @@ def worker(prop, bdir, variant, lo, hi, profile_kw, oracle_names, salt, plan_fn=
         for attempt in (0, 1):
             try:
                 rng = core.case_rng(prop, i, salt)
-                h = histories.History(b, rng, res, prof, oracle_classes=ocs, label=label)
+                h = hist_class(profile_kw)(b, rng, res, prof, oracle_classes=ocs, label=label)
                 h.run()
                 break
             except qsim.SimTimeout as e:
@@ -43,6 +50,8 @@ def worker(prop, bdir, variant, lo, hi, profile_kw, oracle_names, salt, plan_fn=
             for k, v in kinds.items():
                 d[k] = d.get(k, 0) + v
             ncmd = kinds.get("cmd", 0)
+            if sim.grants and profile_kw.get("conc_injectors"):
+                res.counters.setdefault("distinct_interleavings", set()).add(hash(tuple(sim.grants)))
             if ncmd:
                 # distinct: the sequence of boundary events (commands and reports with their kinds)
                 sig = tuple((e["kind"], e.get("chan"), (e.get("text") or b"")[:1] if e["kind"] == "report" else e.get("sig"))
@@ -68,7 +77,7 @@ def run_one(prop, b, idx, salt, profile_kw, oracle_names, plan=None, res=None):
     rng = core.case_rng(prop, idx, salt)
     prof = histories.Profile(**profile_kw)
     label = "%s-%s-%d-%d%s" % (prop, salt, core.seed(), idx, ("-" + plan) if plan else "")
-    h = histories.History(b, rng, res, prof, oracle_classes=ocs, plan=plan, label=label)
+    h = hist_class(profile_kw)(b, rng, res, prof, oracle_classes=ocs, plan=plan, label=label)
     h.run()
     return h, res
 
@@ -78,7 +87,7 @@ def reference_calls(prop, b, idx, salt, profile_kw):
     h, res = run_one(prop, b, idx, salt, profile_kw, [])
     calls = []
     for e in h.sim.events:
-        if e["kind"] == "sys" and e.get("ph") == "exit" and e.get("prog") in ("qmail-send", "qmail-clean") and "n2" in e:
+        if e["kind"] == "sys" and e.get("ph") == "exit" and e.get("prog") in ("qmail-send", "qmail-clean") and "n2" in e and e.get("role") in ("send", "clean"):
             if e.get("c") == "openr":
                 continue
             calls.append((e["prog"], e["n2"], e["c"], (e.get("path2") or e.get("path") or "")))
